@@ -1,4 +1,5 @@
 """C03 — topics are isolated and senders do not hear themselves"""
+from relaycommon import RelayMode
 from lagcommon import LagMode, LAG_RULE
 from hubcommon import HubMode, PathMode
 
@@ -21,4 +22,4 @@ RULE = RULE + LAG_RULE
 
 
 def modes(tier):
-    return [HubMode("C03"), PathMode(), LagMode("C03")]
+    return [HubMode("C03"), PathMode(), LagMode("C03"), RelayMode("C03")]   # relay: topics differing only in case / by one character, real sockets
